@@ -36,8 +36,8 @@ Succ(n) ==
       \cup (IF ~n.neg /\ (n.bits # <<>> \/ n.fl) THEN { [n EXCEPT !.neg = TRUE] } ELSE {})   \* -0 only as a float
       \cup (IF n.bits = <<>> /\ ~n.fl /\ ~n.neg THEN { [n EXCEPT !.fl = TRUE] } ELSE {})     \* 0 -> 0.0
 
-ExpsQuick    == {-1074, -1, 0, 1, 52, 53, 54, 1023, 1024, 1200}
-ExpsThorough == {-1074, -1022, -600, -53, -1, 0, 1, 2, 52, 53, 54, 600, 1023, 1024, 1200, 10000}
+ExpsQuick    == {-1074, -1, 0, 1, 52, 53, 54, 1023, 1024, 1200, 15000}
+ExpsThorough == {-1074, -1022, -600, -53, -1, 0, 1, 2, 52, 53, 54, 600, 1023, 1024, 1200, 10000, 15000}
 
 Init == x = ZeroInt /\ b = ZeroInt
 Next == \/ (x' \in Succ(x) /\ UNCHANGED b)
